@@ -27,7 +27,13 @@ C01M = 'Bashlex.Props.C01'
 T_C01 = [('Bashlex.C01.' + t, C01M) for t in ['C01_partial', 'C01_partial_single', 'C01_partial_split', 'C01_parserRun', 'C01_conditional',
          'expand_progress', 'sat_expandwordinternal', 'parseLoop_exn', 'shAction_sound', 'C01_expand_terminates', 'C01_parse_terminates',
          'C01_no_marker', 'C01_foreign', 'disciplined_iff']]
-reg('C01', 'propchecks.c01', 'proof', [("Bashlex.C11.C01_partial'", 'Bashlex.Props.C11Total'), ('Bashlex.C11.no_init_assert', 'Bashlex.Props.C11Total')] + T_C01 + T1, [ASCII, DEPTH, CORR,
+T_C01E = [('Bashlex.Final.' + t, 'Bashlex.Props.Final') for t in ['C01_engine_terminates', 'C01_engine_terminates_run', 'C01_partial_noLRFuel']] + \
+         [('Bashlex.LR.' + t, 'Bashlex.Props.C01Engine') for t in ['real_rankCheck', 'pot_reduce', 'engine_terminates', 'engine_terminates_ord']] + \
+         [('Bashlex.C01E.' + t, 'Bashlex.Props.C01Engine') for t in ['seq_terminates_list', 'act_exn', 'next_budget', 'C01_engine_terminates_conditional', 'C01_engine_terminates_budget_conditional']]
+T_ACT = [('Bashlex.ActGen.' + t, 'Bashlex.Props.ActGen') for t in ['actgen_agree', 'actgen_covered', 'partsspan_dup', 'partsspan_discard']]
+reg('C01', 'propchecks.c01', 'proof', [("Bashlex.C11.C01_partial'", 'Bashlex.Props.C11Total'), ('Bashlex.C11.no_init_assert', 'Bashlex.Props.C11Total')] + T_C01E + T_C01 + T1, [ASCII, DEPTH, CORR,
+    'Props/C01Engine*.lean + Props/Final.lean: TERMINATION OF THE LR ENGINE LOOP is proved (C01_engine_terminates, no hypothesis since RootEnds is a theorem): a ranking certificate (weight 8 per state accessed by a non-nullable symbol, rank <= 7) is regenerated with the tables by the translator (tools/lrrank.py -> Gen/Rank.lean) and CHECKED by the kernel (real_rankCheck: every reduction strictly decreases the potential, no reduction cycle); engine_terminates: at most 16*m+1 iterations for a token budget m, for every token source; '
+    'next_budget: the real tokenizer pays one unit of |line| - cursor per token; hence on inputs with 16*(|s|+1) < 2^30 neither parse nor parsesingle can raise outOfFuel "LRParser.parse" (C01_partial_noLRFuel) - the fuel marker of the engine is no longer in the allowed list. ',
     "C01_partial' (Props/C11Total.lean) removes AssertionError|ParsingError.__init__ from the list: error positions are proved in range. " +
     'C01_partial bounds what can escape the model: ParsingError, NotImplementedError, 7 listed (type, site) pairs above the tokenizer (3 are recorded defects '
     'with kernel-checked witnesses, 4 could not be excluded), 14 raise sites of the tokenizer (not analysed for reachability) and the out-of-fuel markers of the '
@@ -37,7 +43,10 @@ T_C03 = [('Bashlex.C03.' + t, C03M) for t in ['C03_partial', 'C03_partial_single
 C03T = 'Bashlex.Props.C03Total'
 T_C03 += [('Bashlex.C03.' + t, C03T) for t in ['tokSpans', 'sat_nextToken_w', 'C03_total_conditional', 'C03_total_single_conditional']]
 T_C03 += [('Bashlex.C03.' + t, 'Bashlex.Props.C03.RootEnds') for t in ['C03_total_checked', 'C03_total_single_checked', 'parserRunK_plain', 'parserRunK_spans', 'parseK_sound', 'rootEndOK_noNLNL', 'rootEndsChecked_of_rootEnds']]
+T_ROOT = [('Bashlex.C03.rootEnds', 'Bashlex.Props.C03.RootEndsProof'), ('Bashlex.C03.RE.tokValW', 'Bashlex.Props.C03.RootEndsProof'), ('Bashlex.Totals.rootEndsChecked_all', 'Bashlex.Props.Totals')]
+T_C03 += T_ROOT + [('Bashlex.Totals.C03_total', 'Bashlex.Props.Totals'), ('Bashlex.Totals.C03_total_single', 'Bashlex.Props.Totals')]
 reg('C03', 'propchecks.treespec', 'proof', T_C03 + T1, [ASCII, DEPTH, CORR,
+    'Props/C03/RootEndsProof.lean, Props/C03/RE/*.lean (3800 lines), Props/Totals.lean: **RootEnds is PROVED** (rootEnds, no hypotheses: (S) a new pass over the actions - the end of the root is the end of a delivered non-NEWLINE token, with a kernel-decided grammar fact; (T) from tokText; (W) tokValW - the value of a word token does not end in a raw newline; (H) an exact-cursor walk of the here-document reader), so C03_total / C03_total_single are UNCONDITIONAL: for every input and all options every violated clause of Spec.spansWF on every node of every returned tree is a recorded defect; rootEndsChecked_all: the per-input condition of the checked theorems always holds. ',
     'C03_total_checked (NO hypothesis): the same conclusion under the decidable per-input condition rootEndsChecked s o (an instrumented parse, proved equal to parse, that checks the root of every nested run; it cannot fire when the text has no two adjacent newlines - rootEndOK_noNLNL - and held on all 8.3 million generated parser runs of the sub-task; RootEnds implies it). ' +
     'C03_total_conditional: for every input and all options every violated clause of Spec.spansWF on every node of every returned tree is one of the recorded defects (C03_known: +heredoc, +emptydesc, empty-span:reservedword), '
     'with ONE hypothesis left: RootEnds (the root of a nested parser run does not end in two newlines unless ")" follows - a text-level fact needed for the trailing-newline trim of _parsedolparen). The token-source hypothesis is '
@@ -47,7 +56,8 @@ T_C04T = [('Bashlex.C04.' + t, 'Bashlex.Props.C04Total') for t in ['tokText', 'C
 T_C04 = [('Bashlex.C04.' + t, C04M) for t in ['C04_partial', 'C04_partial_conditional', 'C04_partial_spine', 'C04_prov', 'C04_prov_single', 'C04_leaf_text', 'C04_operator', 'C04_pipe', 'C04_redirect', 'C04_word_span',
          'C04_spine_leaf_text', 'C04_spine_operator', 'C04_spine_pipe', 'value_slice', 'dollar_text', 'Src.slice_eq', 'textOK_origin', 'keepsEol_action', 'parserRun_C04', 'sat_action']]
 T_C04W = [('Bashlex.C04.' + t, 'Bashlex.Props.C04Words') for t in ['parse_W', 'C04_word_starts', 'C04_word_ends', 'C04_word_whole_plain', 'C04_words_single', "C04_total_conditional'", "unlinked_of_unlinked'"]] + [('Bashlex.C04.' + t, 'Bashlex.Props.C04.WordBounds') for t in ['tokWB', 'tokStartsOK', 'tokEndsOK', 'tokWhole_plain']]
-reg('C04', 'propchecks.treespec', 'proof', T_C04W + T_C04T + T_C04 + T1, [ASCII, DEPTH, CORR,
+reg('C04', 'propchecks.treespec', 'proof', [('Bashlex.Totals.C04_total', 'Bashlex.Props.Totals')] + T_ROOT + T_C04W + T_C04T + T_C04 + T1, [ASCII, DEPTH, CORR,
+    'C04_total (Props/Totals.lean): with RootEnds proved, the conditional theorem is unconditional. ',
     'tokText (Props/C04/TokTextProof.lean): the token-text hypothesis is PROVED for the real tokenizer (all of _readtoken, _readtokenword, _parse_matched_pair, _parse_comsub; ghost-text invariant through every buffer append), for the corrected relation '
     'textRel sl v r = "the value followed by the residue is the text under the span with some backslash-newline pairs deleted" (the first formulation, validated by #eval only, was found false on rare inputs by the proof attempt: an escaped backslash directly before a real '
     'continuation); residues = the recorded defects D31, D32, D31+D32 and NEWLINE over here-document bodies. C04_prov_total, C04_leaf_text_total, C04_spine_operator_total, C04_spine_pipe_total, C04_partial_total are unconditional; C04_total_conditional has RootEnds as its only hypothesis. '
@@ -62,7 +72,9 @@ T_C05 += [('Bashlex.C05.' + t, 'Bashlex.Props.C05Checked') for t in ['C05_total_
 T_C05 += [('Bashlex.C05.' + t, 'Bashlex.Props.C05Chars') for t in ['C05_chars_checked', 'posLay_charLay', 'skip_isLayout']] + [('Bashlex.C05.TG.' + t, 'Bashlex.Props.C05.TokGapsProof') for t in ['tokGaps_next', 'tokGaps_gather', 'tokLogG', 'tokLogGL', 'tokGapsC']]
 T_C05 += [('Bashlex.C05.' + t, 'Bashlex.Props.C05Final') for t in ['C05_chars_total', 'C05_final', 'C05_chain_checked', 'TGT.posLay_overapprox', 'run_gapsOK', 'coverOK_sound', 'act_ids', 'TGT.tokLogX', 'TGT.gap_layout', 'TGT.none_layout', 'TGT.tiled_of_covers']] + \
          [('Bashlex.C03.act_store', 'Bashlex.Props.C05Final'), ('Bashlex.LR.run_sound_ordB', 'Bashlex.Props.C05Final')]
+T_C05 += T_ROOT + [('Bashlex.Totals.C05_total', 'Bashlex.Props.Totals'), ('Bashlex.Totals.C05_total_single', 'Bashlex.Props.Totals'), ('Bashlex.Final.C05_final', 'Bashlex.Props.Final'), ('Bashlex.Final.C05_chars_total', 'Bashlex.Props.Final')]
 reg('C05', 'propchecks.treespec', 'proof', T_C05 + T1, [ASCII, DEPTH, CORR,
+    'Final.C05_final / Final.C05_chars_total / Totals.C05_total: with RootEnds proved no per-input condition is left (only the fuel bound of the model, |s|+1 < 2^30). ',
     'Props/C05Final.lean, Props/C05/F*.lean (4950 lines): the sub-task found C05_chars_checked WEAKER than it reads (posLay_overapprox, kernel-checked: PosLay is a property of the text alone, every character after any # on a line counts as layout - a token dropped behind a # inside a word would not be noticed) and repaired it: Skips are anchored at the end of the previous token (Chain), regions consumed by gatherheredocuments are newline / continuation / recorded body (GRegT, a re-walk of the tokenizer). '
     'C05_chars_total: the gathered-body disjunct is GONE - every gathered body is a leaf of the tree flagged as a body (act_ids: all 39 actions conserve the pending redirects of their arguments; act_store: only p_redirection_heredoc appends a store cell); D11 needs no exclusion (it is about which text is the body). '
     'C05_final: token level + character level + parts in one statement (PartsFinal: every run from the restart index satisfies TopOK and CharsTotal, the next index is max(nextIndex part, k+1); a final run that returns no node was delivered only dropped NEWLINEs and EOF and every position of it is layout - run_sound_ordB, accept entries only on $end - so no command is lost behind the last part). '
@@ -72,7 +84,7 @@ reg('C05', 'propchecks.treespec', 'proof', T_C05 + T1, [ASCII, DEPTH, CORR,
     '([fd] op target = one redirect leaf, here-document bodies attached), no token duplicated, and the only tokens without a leaf are NEWLINEs in five listed grammar positions (kernel-checked witnesses); D19 is characterised exactly and '
     'excluded by a decidable predicate. NOT proved: the character-level half (text outside leaf spans is layout: TokGaps) and the link to the executable Spec.coverOK (its qsort cannot be evaluated in the kernel); both are decided per input'])
 C12M = 'Bashlex.Props.C12'
-reg('C12', 'propchecks.treespec', 'proof', [('Bashlex.C12.C12_partial', C12M), ('Bashlex.C12.C12_partial_single', C12M), ('Bashlex.C12.C12_only_pipelines', C12M), ('Bashlex.C12.parserRun_ok', C12M), ('Bashlex.C12.hooks_ok', C12M), ('Bashlex.C12.sat_nextToken', 'Bashlex.Props.C12.Tokens'), ('Bashlex.C12.grammar_ok', 'Bashlex.Props.C12.Grammar')] + T1, [ASCII, DEPTH, CORR])
+reg('C12', 'propchecks.treespec', 'proof', T_ACT + [('Bashlex.C12.C12_partial', C12M), ('Bashlex.C12.C12_partial_single', C12M), ('Bashlex.C12.C12_only_pipelines', C12M), ('Bashlex.C12.parserRun_ok', C12M), ('Bashlex.C12.hooks_ok', C12M), ('Bashlex.C12.sat_nextToken', 'Bashlex.Props.C12.Tokens'), ('Bashlex.C12.grammar_ok', 'Bashlex.Props.C12.Grammar')] + T1, [ASCII, DEPTH, CORR])
 
 QC = 'Bashlex.Proofs.QCongr'
 T6 = [('Bashlex.Q.run_congr', QC), ('Bashlex.Q.run_strict_irrelevant', QC), ('Bashlex.Q.run_proceed_irrelevant', QC),
@@ -89,7 +101,11 @@ T_C14 = [('Bashlex.C14.' + t, C14M) for t in ['runParser_shift', 'runParser_shif
          'shiftSafe_ok', 'consume', 'D19_witness', 'example_shift']]
 T_C14 += [('Bashlex.C14.' + t, 'Bashlex.Props.C14More') for t in ['runParser_layout_all', 'parse_layout_prefix', 'parse_layout_prefix_parts', 'parse_layout_prefix_exn', 'parsesingle_layout_prefix',
           'runParser_layout_only', 'parse_layout_only', 'parse_layout_suffix', 'C13_partial_layout', 'C14_insert_between', 'consumeX', 'D19_comment_witness', 'D19_comment_parsed', 'joinable_witness', 'local_witness']]
+T_C14 += [('Bashlex.C14I.' + t, 'Bashlex.Props.C14Interior') for t in ['engine_from', 'actNat_all', 'actions_covered', 'cfgR_self', 'C14_interior_phase2_conditional', 'C14_interior_SI_conditional',
+          'C14_interior_runParser_conditional', 'widen_validated', 'eol_validated', 'D31_widen_witness', 'heredoc_adjacent_witness', 'heredoc_delim_witness', 'D19_no_exclusion', 'tok_double', 'tok_double_map', 'gather_double', 'sim_double', 'C14_interior_parsesingle_conditional', 'C14_interior_parse_first_conditional']]
 reg('C14', 'propchecks.relprops', 'proof', T_C14 + (T1[:1] + TLEX), [ASCII, DEPTH, CORR,
+    'Props/C14Interior.lean (layout INSIDE a command, partial): the LR engine, resolve and all 39 action functions are natural in an ARBITRARY span map f with f(0,0)=(0,0) that commutes with first-start/last-end and keeps start<end (engine_from, actNat_all - the actions never do arithmetic on positions), so from any pair of related configurations the run on X++ins++Y returns the tree of the run on X++Y with Node.mapPos (spanMap |X| |ins|); '
+    'what is LEFT are three tokenizer-side hypotheses of C14_interior_runParser_conditional (nextToken, word expansion and gatherheredocuments relate the two tapes from the gap on); the target statement is validated by decide +kernel on a corpus (widen_validated, eol_validated) with witnesses for its exclusions (D31 behind an escaped blank, the opening and delimiter lines of here-documents); D19 is no exclusion here. ',
     'Props/C14More.lean: the prefix may be any LAYOUT = ([ \\t\\n] | #...newline | backslash-newline)* (comment lines and continuations included; a backslash at the end of a comment continues nothing): runParser_layout_all (one run, all B), '
     'parse_layout_prefix / parsesingle_layout_prefix (the whole parse: every part shifted, a ParsingError of the first run moved, later errors unchanged); parse_layout_suffix (layout appended after a local, joinable input changes nothing), parse_layout_only; '
     'C13_partial_layout and C14_insert_between (layout inserted at a boundary between top-level commands leaves earlier parts unchanged and moves later parts by its length). Hypotheses left, all decidable per input: proceed = false (D19, witnesses), '
@@ -100,7 +116,9 @@ reg('C14', 'propchecks.relprops', 'proof', T_C14 + (T1[:1] + TLEX), [ASCII, DEPT
 C16M = 'Bashlex.Props.C16'
 T_C16 = [('Bashlex.C16.' + t, C16M) for t in ['C16_partial', 'C16_partial_conditional', 'frameHyp', 'parseI_sound', 'parseI_limit', 'parserRunI_rel', 'rel_action', 'rel_run', 'rel_expandwordWith']]
 T_C16 += [('Bashlex.C16.' + t, 'Bashlex.Props.C16.Stable') for t in ['C16_total_checked', 'heredocStable_checked', 'heredocStable_of_spans', "C16_partial'", 'nextIndex_prune', 'parse_wend']]
+T_C16 += T_ROOT + [('Bashlex.Totals.C16_total', 'Bashlex.Props.Totals')]
 reg('C16', 'propchecks.relprops', 'proof', T_C16 + (T1[:1] + TLEX), [ASCII, DEPTH, CORR,
+    'Totals.C16_total: with RootEnds proved the conditions left are flagsNeutral and noD19 (both decidable per input). ',
     'C16_total_checked: heredocStable is now DERIVED from the span theorem (every node below a word ends inside the word - parse_wend, unconditional - and the outermost word ends before the part or before a surviving here-document body); the remaining conditions are decidable and per input: flagsNeutral, noD19 (no constant-span time node: a limit of the span proof, not a defect) and rootEndsChecked. ' +
     'C16_partial holds under two decidable per-input conditions: flagsNeutral k s o (no nested parse that the limited run skips changes the parser-state flags it shares with its caller - copy.copy(parserstate) is '
     'shallow; when it fails the known divergences go the allowed way: the limited parse accepts what the unlimited one rejects) and heredocStable k parts (pruning does not move the restart index of parse())'])
@@ -145,7 +163,12 @@ reg('C15', 'propchecks.c15', 'proof', [('Bashlex.Props.C15', C15M), ('Bashlex.Pr
 C06M = 'Bashlex.Props.C06'
 T_C06 = [('Bashlex.C06.' + t, C06M) for t in ['C06_plain', 'C06_total', 'C06_partial', 'C06_partial_sat', 'C06_param', 'C06_param_spec',
          'expandwordinternal_plain', 'sat_expandwordinternal_param', 'contGo_hasContinuation']]
+T_C06 += [('Bashlex.C06S.' + t, 'Bashlex.Props.C06Split') for t in ['C06_split_plain', 'split_terminates_plain', 'shlexSplit_chunks', 'C06_split_quoted', 'C06_split_quoted_dec', 'C06_split_quoted_features',
+          'split_terminates_quoted', 'C06_verbatim', 'C06_verbatim_mem', 'C06_verbatim_word']]
 reg('C06', 'propchecks.c06', 'proof', T_C06 + (T1[:1] + TLEX), [ASCII, DEPTH, CORR,
+    'Props/C06Split.lean, Props/C06/S*.lean (3500 lines): C06_split_plain - on inputs of plain characters and blanks split returns exactly the maximal runs of non-blanks and so does shlex (no exception: split_terminates_plain, the fuel of its loop is adequate); shlexSplit_chunks - POSIX shlex is quote removal of the raw chunks (pure lemma); '
+    'C06_split_quoted / _dec / _features - with single quotes, double quotes and backslashes, for chunks free of the recorded defect features (K1-K5, K8, K9/D33; shOK: no backslash before $ ` newline inside double quotes, where shlex itself deviates from the shell), split = shlex = quote removal of the chunks, assignment words included (after the repair of D46); '
+    'C06_verbatim - for every nested parser, the value of a word is o0 ++ text(p1) ++ o1 ++ ... ++ text(pn) ++ on over all returned parts in order: command, process and parameter expansions and tildes are copied verbatim. Kernel-checked witnesses show each exclusion necessary. ',
     'C06_partial/C06_param: the value of a word token is Spec.quoteRemove of its text for every balanced token text free of the recorded defect features K1-K5, K8, K9 '
     '(and K7x, quotes inside ${...}, for words with parameters) whose QUOTED flag is consistent; words with command/process substitutions, backquotes, tildes and '
     'here-document bodies are decided per input against the same Lean definition'])
@@ -176,7 +199,13 @@ T7P = [('Bashlex.Pool.exec_value', QC), ('Bashlex.Pool.exec_pure', QC), ('Bashle
        ('Bashlex.Env.answer_eqModStore', QC), ('Bashlex.Q.run_touched_irrelevant', QC)]
 reg('C19', 'propchecks.c19', 'proof', T7P + [('Bashlex.Props.C20.no_unlisted_shared_write', 'Bashlex.Props.C20')], [ASCII, CORR, 'the theorem is about the abstract interleaving model (atomic queries on one shared store); it cannot exhibit CPython preemption points, the atomicity of defaultdict.__missing__ under the GIL, or free-threaded builds: those are observed under the deterministic scheduler and stress runs'])
 
-reg('C02', 'propchecks.c02', 'translation_validation', (T1[:1] + TLEX), [ASCII, CORR, 'the expected tree is a Lean definition evaluated per generated case (translation-validation strength), not a theorem over all trees'])
+C02M = 'Bashlex.Props.C02'
+T_C02 = [('Bashlex.C02.' + t, C02M) for t in ['C02_full_roundtrip', 'C02_simple_roundtrip', 'C02_seq_roundtrip', 'C02_pipeline_roundtrip', 'C02_andor_roundtrip', 'C02_lines_roundtrip', 'C02_oplines_roundtrip',
+         'tot_nextToken_word', 'tot_nextToken_nl', 'tot_nextToken_semi', 'tot_nextToken_bar', 'tot_nextToken_and', 'tot_nextToken_or', 'run_line', 'run_seq', 'run_pipe', 'run_seqO', 'pe_run', 'run_seqE', 'parse_line']]
+reg('C02', 'propchecks.c02', 'proof', T_C02 + T_ACT + (T1[:1] + TLEX), [ASCII, CORR,
+    'Props/C02*.lean (6800 lines): the ROUND TRIP IS A THEOREM for a sub-language, about the real model (real tokenizer, the LR engine on the regenerated tables, real actions, word expansion, the loop of parse): C02_full_roundtrip - for every sequence of newline-separated lines, each a list (; && || in any mix) of pipelines (|) of simple commands made of plain words (first word of each command not reserved), with arbitrary blanks and tabs between words, around operators and at line ends, with or without a final newline, and for all options, parse returns EXACTLY the expected AST (kinds, nesting, operator and pipe nodes, word values, every span) - no exception possible (total-correctness calculus). '
+    'Outside the theorem and decided per generated case by the Lean oracle Spec/Render.lean (translation-validation strength): quoting, expansions, assignments, redirections, compound commands, comments, continuations, & and |&. The proofs use 180 kernel-decided facts about concrete states of the regenerated tables: a renumbering of the grammar breaks them (then the per-case search decides). '
+    'ActGen: 32 of the 39 semantic action functions are TRANSLATED from parser.py on every run (Gen/Actions.lean) and proved equal to the model (actgen_agree)'])
 
 C20M = 'Bashlex.Props.C20'
 reg('C20', 'propchecks.c20', 'proof', [('Bashlex.Props.C20.' + t, C20M) for t in ['C20_static', 'no_effect_reachable', 'no_effect_reachable_guarded', 'no_unlisted_shared_write', 'reach_complete', 'closure_sound', 'engine_call_ok', 'yacc_args_ok', 'imports_ok', 'import_effects_listed', 'unresolved_listed', 'shared_objects_known']],
